@@ -37,7 +37,8 @@ func EncodeBasicRequest(typ uint16, keyID uint8, blinded []byte) []byte {
 }
 
 // struct { uint16 token_type = 0x0003; uint8 request_key[49]; uint8 issuer_encap_key_id[32];
-//          opaque encrypted_token_request<1..2^16-1>; uint8 request_signature[96]; } TokenRequest;
+//
+//	opaque encrypted_token_request<1..2^16-1>; uint8 request_signature[96]; } TokenRequest;
 func EncodeRateLimitedRequest(requestKey, nameKeyID, encrypted, signature []byte) []byte {
 	return cat(u16(3), requestKey, nameKeyID, u16(len(encrypted)), encrypted, signature)
 }
